@@ -62,7 +62,7 @@ int lbuf_search(struct lbuf *lb, char *kw, int dir, int *r, int *o, int *len)
 		char *s = lbuf_get(lb, i);
 		int off = dir > 0 && r0 == i ? uc_chr(s, o0 + 1) - s : 0;
 		while (rstr_find(re, s + off, 1, offs,
-				off ? RE_NOTBOL : 0) >= 0) {
+				off ? RE_NOTBOL | RE_PREV : 0) >= 0) {
 			if (dir < 0 && r0 == i &&
 					uc_off(s, off + offs[0]) >= o0)
 				break;
